@@ -203,7 +203,8 @@ class ANTLRSemantics:
     def token(self, ast: AST) -> g.Token | g.Void:
         name = ast.name
         if ast.exp:
-            exp = g.Token(token=ast.value)
+            value = ast.exp
+            exp = value if isinstance(value, g.Token) else g.Token(token=str(value))
             self.tokens[name] = exp
         else:
             exp = g.Void()  # type: ignore
